@@ -7,5 +7,13 @@ W_rec   == << [recv |-> "r1", integ |-> "webhook/0", from |-> 3, to |-> 6, kind 
 W_unrec == << [recv |-> "r1", integ |-> "webhook/0", from |-> 2, to |-> 5, kind |-> "unrec"] >>
 W_hang  == << [recv |-> "r1", integ |-> "webhook/0", from |-> 2, to |-> 4, kind |-> "hang"] >>
 GapOne(k) == 1
+R_none == << >>
+NoIv == << >>
+\* a continuing route for g="1" with its own (shorter) timers in front of a catch-all:
+\* alerts with g="1" live in two groups, the others in one
+R_cont == << [rk |-> "{}/{g=\"1\"}", sel |-> "G1", cont |-> TRUE, recv |-> "r1", gw |-> 0, gi |-> 2, ri |-> 3, mute |-> NoIv, active |-> NoIv],
+             [rk |-> "{}/{alertname=~\".+\"}", sel |-> "ALL", cont |-> FALSE, recv |-> "r1", gw |-> 1, gi |-> 3, ri |-> 4, mute |-> NoIv, active |-> NoIv] >>
+\* first match wins: critical alerts leave the root
+R_first == << [rk |-> "{}/{sev=\"crit\"}", sel |-> "CRIT", cont |-> FALSE, recv |-> "r1", gw |-> 2, gi |-> 2, ri |-> 4, mute |-> NoIv, active |-> NoIv] >>
 \* observation-only variables are hidden: none here (the monitor state is part of the judgement)
 =============================================================================
